@@ -21,18 +21,21 @@ type FuncResult struct {
 	Partial   bool // termination not shown (no decreases on some loop)
 	NoSafety  bool
 	LoopCount int
+	UnresolvedHints []string // witness names that did not resolve at some return
+	fn        *ssa.Function
+	ct        *Contract
 }
 
 func newExec(P *Program, DB *SpecDB, S *Sorts, mode Mode) *Exec {
 	return &Exec{P: P, DB: DB, S: S, mode: mode, assumed: map[string]bool{}, counters: map[string]int{},
 		writes: map[*ssa.BasicBlock]map[string]bool{}, inlined: map[string]bool{}, ufDecl: S.uf,
-		constGlobals: map[string]bool{}, ghost: map[string]Val{}, sentAssumed: map[string]bool{}}
+		constGlobals: map[string]bool{}, ghost: map[string]Val{}, sentAssumed: map[string]bool{}, rename: currentRename}
 }
 
 // VerifyFunc generates the obligations of one function under contract.
 func VerifyFunc(P *Program, DB *SpecDB, fn *ssa.Function, ct *Contract) (res *FuncResult) {
 	key := FuncKey(fn)
-	res = &FuncResult{Key: ShortKey(key), Mode: ct.Mode, Trusted: ct.Trusted, NoSafety: ct.NoSafety}
+	res = &FuncResult{Key: ShortKey(key), Mode: ct.Mode, Trusted: ct.Trusted, NoSafety: ct.NoSafety, fn: fn, ct: ct}
 	defer func() {
 		if r := recover(); r != nil {
 			if te, ok := r.(toolErr); ok {
@@ -63,6 +66,10 @@ func VerifyFunc(P *Program, DB *SpecDB, fn *ssa.Function, ct *Contract) (res *Fu
 		o.Script = script
 	}
 	res.Obls = p2.obls
+	for h := range p2.unresolvedHints {
+		res.UnresolvedHints = append(res.UnresolvedHints, h)
+	}
+	sort.Strings(res.UnresolvedHints)
 	for a := range p2.assumed {
 		res.Assumed = append(res.Assumed, a)
 	}
